@@ -350,8 +350,14 @@ def is_convex(mesh):
     if not mesh.is_watertight or mesh.body_count != 1:
         return False
 
-    # don't consider zero- area faces
-    nonzero = mesh.area_faces > tol.zero
+    # don't consider degenerate faces: the normal of a triangle which is
+    # thinner than the resolution of the coordinates it is made of
+    # (`tol.zero` is a hundred times the float resolution) is decided by
+    # round-off, and so is every projection onto it
+    height = tol.zero * float(np.abs(mesh.bounds).max())
+    nonzero = triangles.nondegenerate(
+        mesh.triangles, areas=mesh.area_faces, height=height
+    )
     # adjacencies with two nonzero faces
     adj_ok = nonzero[mesh.face_adjacency].all(axis=1)
 
